@@ -263,6 +263,11 @@ def run(ctx):
         else:
             r2.good(f"{m.rel}:upgrade", "no destructive operation")
 
+    # ---- C36.4 back-fills cover every row they assign -----------------------------------
+    r4 = ctx.rule("C36.4", "a back-fill UPDATE from a scratch table covers every row it assigns", floor=1)
+    if backfill_coverage(r4, revs, chain) < 1:
+        raise AnalysisError("no `update T set c = (select .. from <scratch table>)` back-fill found in the migrations", "tmp_ancestors")
+
     # ---- C36.3 folded schema == ORM ---------------------------------------------------
     r3 = ctx.rule("C36.3", "folded migration schema equals the declarative models (tables and column names)", floor=10)
     orm: dict[str, set] = {}
@@ -289,3 +294,43 @@ def run(ctx):
             r3.check(not diff, f"{db.rel}:table {tn}:columns", f"columns differ between model and folded migrations for `{tn}`: {sorted(diff)}", db.rel, 0)
     ctx.extra["folded_schema"] = {k: sorted(x for x in v if x) for k, v in schema.items()}
     ctx.extra["chain"] = chain
+
+
+def backfill_coverage(rule, revs, chain):
+    """`update T set c = (select .. from S ..)` without an outer WHERE assigns *every* row of T; rows with no match in S get NULL.  When S is a scratch
+    table built in the same upgrade(), its defining query therefore must not filter rows away (a WHERE in it) unless the UPDATE carries the same predicate."""
+    n = 0
+    for rev in chain:
+        m, _ = revs[rev]
+        up = m.funcs.get("upgrade")
+        if up is None:
+            continue
+        stmts = [(st, line) for sql, line in _sql_strings(up) for st in _statements(sql)]
+        scratch = {}
+        for st, line in stmts:
+            mt = re.match(r"create (temp |temporary )?table (if not exists )?\"?(\w+)\"? as (.*)$", st)
+            if mt:
+                scratch[mt.group(3)] = (mt.group(4), line)
+        for st, line in stmts:
+            mt = re.match(r"update \"?(\w+)\"? set \"?(\w+)\"? = \(\s*(select .*)\)( where (.*))?$", st)
+            if not mt:
+                continue
+            tname, col, sub, outer_where = mt.group(1), mt.group(2), mt.group(3), mt.group(5)
+            src_tables = [s for s in scratch if re.search(rf"\bfrom {s}\b", sub)]
+            for s in src_tables:
+                n += 1
+                definition, dline = scratch[s]
+                preds = [re.sub(r"\b\w+\.", "", p).strip() for p in re.findall(r"\bwhere (.*?)(?= union | group by | order by |\)|$)", definition)]
+                ow = re.sub(r"\b\w+\.", "", outer_where).strip() if outer_where else None
+                uncovered = [p for p in preds if p and p != ow]
+                rule.check(
+                    not uncovered,
+                    f"{m.rel}:upgrade:backfill:{tname}.{col}<-{s}",
+                    f"revision {rev}: `update {tname} set {col} = (select .. from {s} ..)` assigns every row of {tname}"
+                    + (f" matching `{ow}`" if ow else "")
+                    + f", but the scratch table {s} is built only from rows where `{'; '.join(uncovered)}`: rows left out get {col} = NULL (existing values are erased; "
+                    "a following NOT NULL alteration then fails and the database cannot be upgraded)",
+                    m.rel,
+                    dline,
+                )
+    return n
